@@ -191,3 +191,38 @@ def const_value(e):
     if isinstance(e, ast.UnaryOp) and isinstance(e.op, ast.USub) and isinstance(e.operand, ast.Constant):
         return -e.operand.value
     return None
+
+
+def const_str(module_tree, expr, depth=0):
+    """The string a module-level expression evaluates to when it is built from literals, f-strings over module-level string
+    constants and members of str-valued enum / constant classes of the module; None when it cannot be folded."""
+    if depth > 12:
+        return None
+    if isinstance(expr, ast.Constant) and isinstance(expr.value, str):
+        return expr.value
+    if isinstance(expr, ast.JoinedStr):
+        out = []
+        for v in expr.values:
+            s = const_str(module_tree, v.value if isinstance(v, ast.FormattedValue) else v, depth + 1)
+            if s is None or (isinstance(v, ast.FormattedValue) and (v.format_spec is not None or v.conversion != -1)):
+                return None
+            out.append(s)
+        return ''.join(out)
+    if isinstance(expr, ast.BinOp) and isinstance(expr.op, ast.Add):
+        a, b = const_str(module_tree, expr.left, depth + 1), const_str(module_tree, expr.right, depth + 1)
+        return None if a is None or b is None else a + b
+    if isinstance(expr, ast.Name):
+        vals = [st.value for st in module_tree.body if isinstance(st, ast.Assign) and len(st.targets) == 1 and
+                isinstance(st.targets[0], ast.Name) and st.targets[0].id == expr.id]
+        vals += [st.value for st in module_tree.body if isinstance(st, ast.AnnAssign) and isinstance(st.target, ast.Name) and
+                 st.target.id == expr.id and st.value is not None]
+        return const_str(module_tree, vals[0], depth + 1) if len(vals) == 1 else None
+    if isinstance(expr, ast.Attribute) and isinstance(expr.value, ast.Name):
+        for st in module_tree.body:
+            if isinstance(st, ast.ClassDef) and st.name == expr.value.id:
+                vals = [x.value for x in st.body if isinstance(x, ast.Assign) and len(x.targets) == 1 and
+                        isinstance(x.targets[0], ast.Name) and x.targets[0].id == expr.attr]
+                return const_str(module_tree, vals[0], depth + 1) if len(vals) == 1 else None
+    if isinstance(expr, ast.Call) and isinstance(expr.func, ast.Attribute) and expr.func.attr == 'compile' and expr.args:
+        return const_str(module_tree, expr.args[0], depth + 1)
+    return None
